@@ -15,6 +15,7 @@ compared with
     error) and against a session gateway whose counter persists over many exchanges; compared with the model
     (`unirecv`) and with what the exchange denotes (`spec unirecv`): an answered query returns its value whatever
     the counter."""
+from common import exc_name  # noqa: E402
 import logging
 import sys
 import types
@@ -191,7 +192,7 @@ class Env:
         except Captured:
             return ("captured", None)
         except Exception as e:  # noqa
-            return ("err", type(e).__name__)
+            return ("err", exc_name(e))
         coro.close()
         return ("pending", None)
 
@@ -240,7 +241,7 @@ class Env:
                 r = self.unid.construct(c)
                 return "ok %d/%d" % (r[0], r[1])
         except Exception as e:  # noqa
-            return "err " + type(e).__name__
+            return "err " + exc_name(e)
         raise InfraError(drv)
 
     # ---- meanings
@@ -312,7 +313,7 @@ class Env:
             if drv == "unipi":
                 return self.meaning(self.unid.extract(tuple(args)))
         except Exception as e:  # noqa
-            return "raise:" + type(e).__name__
+            return "raise:" + exc_name(e)
         raise InfraError(drv)
 
     # ---- UniPi: the real SyncUnipiDALIDriver.send against a register backend
@@ -349,7 +350,7 @@ class Env:
         try:
             r = drv.send(c)
         except Exception as e:  # noqa
-            return "raise:" + type(e).__name__
+            return "raise:" + exc_name(e)
         if r is self.uni.DALI_NO_RESPONSE:
             return "noresponse"
         if isinstance(r, self.command.Response):
@@ -611,7 +612,7 @@ def refuse_one(env, drv, bits, mname):
         out = "never returns: spins without yielding to the event loop"
     except BaseException as e:  # noqa
         names = [k.__name__ for k in type(e).__mro__]
-        out = "err " + ("UnsupportedFrameTypeError" if "UnsupportedFrameTypeError" in names else type(e).__name__)
+        out = "err " + ("UnsupportedFrameTypeError" if "UnsupportedFrameTypeError" in names else exc_name(e))
     finally:
         hidmod.os = saved_os
     written = [w.hex()[:24] for w in state["fos"].written[:2]] if "fos" in state else []
